@@ -161,8 +161,9 @@ def fragment(rng, payload, fill, n, sid, chan=b'A', cuts=None):
         cuts = sorted(rng.sample(range(1, L), n - 1)) if n > 1 else []
     parts = [payload[a:b] for a, b in zip([0] + cuts, cuts + [L])]
     out = []
+    odd = rng.random() < 0.15       # occasionally a fill count on a fragment that is not the last
     for i, p in enumerate(parts):
-        out.append(sentence(p, fill if i == n - 1 else 0, n, i + 1, sid, chan))
+        out.append(sentence(p, fill if i == n - 1 else (rng.randrange(6) if odd else 0), n, i + 1, sid, chan))
     return out
 
 def random_line(rng):
